@@ -827,9 +827,13 @@ class ArgumentParser(ParserDeprecations, ActionsContainer, ArgumentLinking, argp
             ):
                 cfg.pop(action_dest, None)
             elif isinstance(action, _ActionSubCommands):
-                cfg.pop(action_dest, None)
                 for key, subparser in action.choices.items():
                     self._dump_cleanup_actions(cfg, subparser._actions, dump_kwargs, prefix=prefix + key + ".")
+                chosen = cfg.get(action_dest)
+                section = cfg.get(prefix + chosen) if isinstance(chosen, str) else None
+                if not (isinstance(section, Namespace) and not section):
+                    # without settings the choice can not be inferred from the sections, so then it is kept
+                    cfg.pop(action_dest, None)
             elif isinstance(action, ActionLink):
                 action = action.target[1]
             if isinstance(action, ActionTypeHint):
